@@ -105,6 +105,30 @@ func ruleR11(c *Ctx) {
 				}
 			}
 			for _, call := range callsIn(n) {
+				// sync.Once.Do(func(){ ... watch ... }): the watch is made (once) at this point
+				if lf := syncLitOfCall(p, in, call); lf != nil {
+					lin := info(lf)
+					made := false
+					inspectNoLit(lf.Body, func(z ast.Node) bool {
+						switch y := z.(type) {
+						case *ast.GoStmt:
+							if inner, ok := unparen(y.Call.Fun).(*ast.CallExpr); ok {
+								if ifn := callee(lin, inner); ifn != nil && subscribesSync(p, p.byObj[ifn], 0) {
+									made = true
+								}
+							}
+							return false
+						case *ast.CallExpr:
+							if isTracerMethod(lin, y, "Subscribe") || isTracerMethod(lin, y, "SubscribeChannel") {
+								made = true
+							}
+						}
+						return true
+					})
+					if made {
+						watches = append(watches, ev{pt, call, true, "sync.Once.Do(...) that creates the watcher (subscription made synchronously, once)"})
+					}
+				}
 				fn := callee(in, call)
 				if isStartTrigger(fn) {
 					triggers = append(triggers, ev{pt, call, true, calleeName(fn)})
